@@ -108,6 +108,12 @@ type xProd struct {
 	Name   string
 	Expr   string
 	LValue bool // the expression is itself a name (a write through it is a write to the owner)
+	ListOnly bool // a built-in that keeps the elements but not string keys: list shapes only
+	// the array carries ArrayValue.IndirectOverloadClass (result of ArrayAccess::offsetGet): the
+	// interpreter drops writes into it while it is an element of another array, even after it was
+	// copied there — a lost write, not an aliasing matter; the effect check is not applied to
+	// element-rooted names for this producer (see notes/C06.md, "seen on the way")
+	Overloaded bool
 }
 
 type xOwner struct {
@@ -117,6 +123,7 @@ type xOwner struct {
 	Read    string // pure expression that reads the owner
 	LitOnly bool   // needs a constant expression
 	Scope   string // "" any | top | method
+	Fresh   bool   // run in a fresh interpreter: `global $a` is resolved per interpreter, not per script
 	Prods   []xProd
 }
 
@@ -132,7 +139,7 @@ var xOwners = []xOwner{
 		{Name: "funcOfObject", Expr: "xgetp($o)"},
 		{Name: "staticOfObject", Expr: "XO::of($o)"},
 		{Name: "magicGet", Expr: "$o->virt"},
-		{Name: "offsetGet", Expr: "$o['k']"},
+		{Name: "offsetGet", Expr: "$o['k']", Overloaded: true},
 		{Name: "invokeGetter", Expr: "$o()"},
 		{Name: "ternaryGetter", Expr: "(true ? $o->get0() : null)"},
 		{Name: "coalesceGetter", Expr: "($o->get0() ?? null)"},
@@ -151,9 +158,15 @@ var xOwners = []xOwner{
 		{Name: "matchVar", Expr: "match(1) { 1 => $a, default => null }"},
 		{Name: "closureUse", Expr: "(function() use ($a) { return $a; })()"},
 		{Name: "arrowVar", Expr: "(fn() => $a)()"},
+		// built-in functions whose result has the elements of their argument (these do not keep
+		// the string keys of an ArrayValue on this tree: list shapes only)
+		{Name: "mergeVar", Expr: "array_merge($a)", ListOnly: true},
+		{Name: "sliceVar", Expr: "array_slice($a, 0)", ListOnly: true},
+		{Name: "filterVar", Expr: "array_filter($a)", ListOnly: true},
+		{Name: "unionVar", Expr: "($a + [])", ListOnly: true},
 	}},
 	// (`global $a` binds the global of the script that declares the function: declared per case)
-	{Name: "global", Scope: "top", Decl: "function xglob{N}() { global $a; return $a; }%.0s", Setup: "$a = %s;", Read: "$a", Prods: []xProd{
+	{Name: "global", Scope: "top", Fresh: true, Decl: "function xglob{N}() { global $a; return $a; }%.0s", Setup: "$a = %s;", Read: "$a", Prods: []xProd{
 		{Name: "globalGetter", Expr: "xglob{N}()"},
 		{Name: "identGlobalGetter", Expr: "ident(xglob{N}())"},
 	}},
@@ -171,6 +184,7 @@ var xOwners = []xOwner{
 		{Name: "elemOfCopy", Expr: "xat1($c)"},
 		{Name: "elemOfCall", Expr: "ident($c)[1]"},
 		{Name: "identElem", Expr: "ident($c[1])"},
+		{Name: "endElem", Expr: "end($c)"},
 	}},
 	{Name: "const", Scope: "top", Decl: "const XC{N} = %s;", Read: "XC{N}", LitOnly: true, Prods: []xProd{
 		{Name: "const", Expr: "XC{N}"},
@@ -213,6 +227,7 @@ type xSink struct {
 	Scope    string // "" any | method
 	Temp     bool   // the write is applied to the expression itself
 	NoLog    bool   // there is no name behind the boundary whose value could be reported
+	ElemTarget bool // the written name is an element of another array
 }
 
 // argument styles of a call: how the expression is written in the argument list,
@@ -280,7 +295,7 @@ func buildSinks() []xSink {
 	for _, f := range xForms {
 		for _, st := range xStyles {
 			f, st := f, st
-			ss = append(ss, xSink{Name: f.Name + st.Name, ListOnly: st.ListOnly, NoFunc: st.NoFunc, Scope: f.Scope,
+			ss = append(ss, xSink{Name: f.Name + st.Name, ListOnly: st.ListOnly, NoFunc: st.NoFunc, Scope: f.Scope, ElemTarget: st.Callee == "variadic",
 				Make: func(e string, m xMut) string {
 					return fmt.Sprintf(f.Call, st.Callee, m.Name, fmt.Sprintf(st.Args, e))
 				}})
@@ -289,11 +304,11 @@ func buildSinks() []xSink {
 	for _, st := range xStyles {
 		st := st
 		cl := xCalleeByName(st.Callee)
-		ss = append(ss, xSink{Name: "closure" + st.Name, ListOnly: st.ListOnly, NoFunc: st.NoFunc,
+		ss = append(ss, xSink{Name: "closure" + st.Name, ListOnly: st.ListOnly, NoFunc: st.NoFunc, ElemTarget: st.Callee == "variadic",
 			Make: func(e string, m xMut) string {
 				return fmt.Sprintf("(function(%s) { %s xlog(%s); return 0; })(%s);", cl.Params, m.on(cl.Target), cl.Target, fmt.Sprintf(st.Args, e))
 			}})
-		ss = append(ss, xSink{Name: "closureVar" + st.Name, ListOnly: st.ListOnly, NoFunc: st.NoFunc,
+		ss = append(ss, xSink{Name: "closureVar" + st.Name, ListOnly: st.ListOnly, NoFunc: st.NoFunc, ElemTarget: st.Callee == "variadic",
 			Make: func(e string, m xMut) string {
 				return fmt.Sprintf("$cl = function(%s) { %s xlog(%s); return 0; }; $cl(%s);", cl.Params, m.on(cl.Target), cl.Target, fmt.Sprintf(st.Args, e))
 			}})
@@ -306,7 +321,9 @@ func buildSinks() []xSink {
 		{Name: "selfMethod", Make: one("(new XS)->self_%s(%s);")},
 		{Name: "staticKeyword", Make: one("(new XS)->late_%s(%s);")},
 		{Name: "parentMethod", Make: one("(new XP)->m_pos_%s(%s);")},
-		{Name: "magicCall", Make: one("(new XI_%s)->nosuch(%s);")},
+		// (`__call` receives its arguments re-packed without string keys — CloneArrayValueForCallArgs
+		//  drops ZVal.Name —, a value change in transit that is not an aliasing matter: list shapes only)
+		{Name: "magicCall", ListOnly: true, Make: one("(new XI_%s)->nosuch(%s);")},
 		{Name: "invoke", Make: one("$xi = new XI_%s; $xi(%s);")},
 		{Name: "ctorAssigned", Make: one("$k = new XK_pos_%s(%s);")},
 		{Name: "promotedCtor", Make: store("$k = new XKP(%s);", "$k->items")},
@@ -327,12 +344,14 @@ func buildSinks() []xSink {
 		{Name: "thisPropStore", Scope: "method", Make: store("$this->p1 = %s;", "$this->p1")},
 		{Name: "selfStaticStore", Scope: "method", Make: store("self::$st = %s;", "self::$st")},
 		{Name: "lateStaticStore", Scope: "method", Make: store("static::$st = %s;", "static::$st")},
-		{Name: "elemStore", NoFunc: true, Make: store("$c2 = [0, 0]; $c2[1] = %s;", "$c2[1]")},
-		{Name: "elemAppend", NoFunc: true, Make: store("$c2 = [0]; $c2[] = %s;", "$c2[1]")},
-		{Name: "elemKeyStore", NoFunc: true, Make: store("$c2 = [0]; $c2['k'] = %s;", "$c2['k']")},
-		{Name: "propElemStore", NoFunc: true, Make: store("$o2 = new XO; $o2->p1 = [0, 0]; $o2->p1[1] = %s;", "$o2->p1[1]")},
-		{Name: "literalItem", NoFunc: true, Make: store("$c2 = [0, %s];", "$c2[1]")},
-		{Name: "keyedLiteralItem", NoFunc: true, Make: store("$c2 = ['k' => %s];", "$c2['k']")},
+		{Name: "elemStore", NoFunc: true, ElemTarget: true, Make: store("$c2 = [0, 0]; $c2[1] = %s;", "$c2[1]")},
+		{Name: "elemAppend", NoFunc: true, ElemTarget: true, Make: store("$c2 = [0]; $c2[] = %s;", "$c2[1]")},
+		{Name: "elemKeyStore", NoFunc: true, ElemTarget: true, Make: store("$c2 = [0]; $c2['k'] = %s;", "$c2['k']")},
+		{Name: "propElemStore", NoFunc: true, ElemTarget: true, Make: store("$o2 = new XO; $o2->p1 = [0, 0]; $o2->p1[1] = %s;", "$o2->p1[1]")},
+		{Name: "pushStore", NoFunc: true, ElemTarget: true, Make: store("$c2 = [0]; $c2->push(%s);", "$c2[1]")},
+		{Name: "arrayPushStore", NoFunc: true, ElemTarget: true, Make: store("$c2 = [0]; array_push($c2, %s);", "$c2[1]")},
+		{Name: "literalItem", NoFunc: true, ElemTarget: true, Make: store("$c2 = [0, %s];", "$c2[1]")},
+		{Name: "keyedLiteralItem", NoFunc: true, ElemTarget: true, Make: store("$c2 = ['k' => %s];", "$c2['k']")},
 		{Name: "destructure", Make: store("[$b] = [%s];", "$b")},
 		{Name: "closureCapture", OnlyProd: "var", Make: func(e string, m xMut) string {
 			return fmt.Sprintf("$cl = function() use (%s) { %s xlog(%s); return 0; }; $cl();", e, m.on(e), e)
@@ -434,7 +453,7 @@ func xApplicable(scope string, s xShape, ow xOwner, p xProd, sk xSink, m xMut) b
 	if !scopeOK(ow.Scope, scope) || !scopeOK(sk.Scope, scope) {
 		return false
 	}
-	if ow.LitOnly && !s.Lit {
+	if ow.LitOnly && !s.Lit || p.ListOnly && !s.List {
 		return false
 	}
 	if sk.OneMut != "" && m.Name != sk.OneMut {
@@ -493,7 +512,8 @@ func xCase(scope string, s xShape, ow xOwner, p xProd, sk xSink, m xMut) *Case {
 	default:
 		src += body.String()
 	}
-	return &Case{Kind: "x", Src: src, Shape: s.Name, Route: p.Name, Side: sk.Name, Mut: m.Name, Scope: scope}
+	return &Case{Kind: "x", Src: src, Shape: s.Name, Route: p.Name, Side: sk.Name, Mut: m.Name, Scope: scope, Fresh: ow.Fresh,
+		NoEffect: p.Overloaded && sk.ElemTarget}
 }
 
 // signature of a composite-route failure. A write applied to the expression itself
@@ -512,7 +532,9 @@ func xSig(kind string, cs *Case) string {
 // runX: the owner must print the same before and after the statement.
 func (r *runner) runX(cs *Case) {
 	c := r.c
+	r.fresh = cs.Fresh
 	o := r.runScript(cs.Src)
+	r.fresh = false
 	if len(c.ReplayRaw) > 0 {
 		c.Note("script:\n%s\noutcome: %s", cs.Src, o.String())
 	}
@@ -548,7 +570,7 @@ func (r *runner) runX(cs *Case) {
 		return
 	}
 	// the boundary delivered the value and the write acted on it exactly as on a plain variable
-	if !sk.NoLog && lines[2] != lines[3] {
+	if !sk.NoLog && !cs.NoEffect && lines[2] != lines[3] {
 		sig := xSig("xeffect", cs)
 		r.seen(sig, cs)
 		if _, dup := r.sigs[sig+"#"]; !dup && len(r.sigs) < 40000 {
@@ -561,12 +583,12 @@ func (r *runner) runX(cs *Case) {
 // xEnumerate runs the product. full = every combination; otherwise, at top level, every
 // (producer × sink) pair under a covering set of mutations plus every (mutation × shape)
 // for representative producers and sinks, and in function / method scope every pair
-// under two mutations.
+// under one mutation.
 func (r *runner) xEnumerate(full bool) int {
 	n := 0
-	quickMuts := map[string]bool{"append": true, "storeIdx": true, "unset": true, "pop": true, "sort": true, "array_push": true}
-	repProd := map[string]bool{"getter": true, "staticLocal": true, "ident": true, "elemOfCopy": true, "const": true, "thisGetter": true}
-	repSink := map[string]bool{"func": true, "method": true, "ctor": true, "elemStore": true, "temp": true, "funcVariadic": true, "staticPropStore": true}
+	quickMuts := map[string]bool{"append": true, "storeIdx": true, "pop": true, "array_push": true}
+	repProd := map[string]bool{"getter": true, "staticLocal": true}
+	repSink := map[string]bool{"func": true, "ctor": true, "temp": true}
 	for _, scope := range xScopes {
 		for _, s := range xShapes {
 			for _, ow := range xOwners {
@@ -575,13 +597,12 @@ func (r *runner) xEnumerate(full bool) int {
 						for _, m := range xMuts {
 							if !full {
 								pair := (s.Name == "list" && quickMuts[m.Name]) || (s.Name == "kv" && m.Name == "storeKey")
-								if scope != "top" {
-									pair = s.Name == "list" && (m.Name == "append" || m.Name == "storeIdx")
-									if !pair {
+								if scope != "top" || ow.Fresh {
+									// (a fresh interpreter per case is slow: one mutation)
+									if !(s.Name == "list" && m.Name == "append") {
 										continue
 									}
-								}
-								if !pair && !repProd[p.Name] && !repSink[sk.Name] {
+								} else if !pair && !repProd[p.Name] && !repSink[sk.Name] {
 									continue
 								}
 							}
